@@ -136,7 +136,7 @@ def cmd_table():
         caught = sorted(c.split(':')[0] for c, h in last.items() if h['exit'] == 1)
         missed_then = sorted(c.split(':')[0] for c, h in first.items() if h['exit'] != 1 and last[c]['exit'] == 1)
         still = sorted(c.split(':')[0] for c, h in last.items() if h['exit'] != 1)
-        rows.append((m['id'], m['property'], m.get('needs', '')[:150], ', '.join(caught) or '-', ', '.join(missed_then) or '-',
+        rows.append((m['id'], m['property'], m.get('needs', '')[:150].replace('|', '/'), ', '.join(caught) or '-', ', '.join(missed_then) or '-',
                      ', '.join(f'{c} (exit {last[c + ":quick"]["exit"]})' for c in still) or '-'))
     print('| change | seeded for | what it needs to manifest | caught by (quick tier) | missed at first, caught after strengthening | not caught by |')
     print('|---|---|---|---|---|---|')
